@@ -7,6 +7,7 @@ CONSTANTS
     Level = "thorough"
     FixAssoc = TRUE
     FixTplLast = TRUE
+    FixRollback = TRUE
     Known = {"rename-both-ids", "template-update-partial"}
 INVARIANTS
     CatalogueIsAccepted
@@ -15,6 +16,7 @@ INVARIANTS
     RestartRestoresExecuting
     NoOrphanAssociation
     TemplateAllOrNone
+    DerivedFromScript
 CONSTRAINT HW
 POSTCONDITION Accepted
 CHECK_DEADLOCK FALSE
